@@ -212,7 +212,8 @@ def einsum(*operands, dtype=None, optimize=False, split_every=None, **kwargs):
     all_inds = {a for i in inputs for a in i}
 
     # Which indices are contracted?
-    contract_inds = all_inds - set(outputs)
+    # sorted: the order feeds the blockwise index tuple and hence the name
+    contract_inds = sorted(all_inds - set(outputs))
     ncontract_inds = len(contract_inds)
 
     if len(inputs) > 1 and len(outputs) > 0:
